@@ -131,3 +131,35 @@ def config_matrix(make, tier, k_quick=1, k_thorough=2, weight=0.3, extra_params=
         if not q or slots in ("5 ", "gw1.lan/1 gw1.lan/2"):
             add(nets, {"slots": slots, "pool_scope": "own shared"}, f"slots={slots!r}@{nets.replace(' ', '+')},scope=own+shared")
     return out
+
+
+# run settings the traversal reads; every pair of non-default values is run together (interactions between two settings are where
+# single-dimension sweeps are blind)
+SETTINGS = [
+    ("pool_scope", ("own shared", "own swarm shared")), ("max_tries", ("2",)), ("max_concurrent_tries", ("1", "2")), ("rerun_status", ("fail",)),
+    ("stop_status", ("pass",)), ("test_timeout", ("1", "3600")), ("dry_run", ("yes",)), ("pool_filter", ("copy", "block")),
+    ("slots", ("5 ", "gw1.lan/1 gw1.lan/2")), ("unset_mode", ("fi",)),
+]
+
+
+def settings_pairs(make, tier, k_quick=1, k_thorough=1, weight=0.2, lazy_too=True):
+    """Plan entries for every pair of non-default values of two different settings (plus lazy parsing as a setting of its own)."""
+    import itertools
+
+    q = tier == "quick"
+    out = []
+    singles = [(key, v) for key, vals in SETTINGS for v in (vals[:1] if q else vals)]
+    combos = [(a, b) for a, b in itertools.combinations(singles, 2) if a[0] != b[0]]
+    for a, b in combos:
+        params = {a[0]: a[1], b[0]: b[1]}
+        scn = make(params=params).variant(f"/set:{a[0]}={a[1]!r}+{b[0]}={b[1]!r}")
+        if params.get("test_timeout") == "3600":
+            scn.max_steps, scn.max_vtime = 400000, 100000.0
+        out.append((scn, k_quick if q else k_thorough, weight))
+    if lazy_too:
+        for a in singles:
+            scn = make(params={a[0]: a[1]}, lazy=True).variant(f"/set:lazy+{a[0]}={a[1]!r}")
+            if a[1] == "3600":
+                scn.max_steps, scn.max_vtime = 400000, 100000.0
+            out.append((scn, k_quick if q else k_thorough, weight))
+    return out
